@@ -24,6 +24,9 @@ def pivot():
         U("A"), U("H1", disabled=True, message="m", serialize=["h1"]), U("B"), U("H2", disabled=True, message="m2", flags_last=True), U("C"),
         U("H3", disabled=True, attr_style="trailing"), U("H4", disabled=True, props=[[("k", "v")]], flags_last=True), U("D"),
     ], note="`disabled` combined with other items in one attribute (before / after key = value items), trailing comma, next to props(..)"))
+    S.append(EnumSpec("Annotated", [U("Low", serialize=["low"], message="m"), U("Mid"), U("High", props=[[("disabled", "true"), ("default", 1)]]), U("Top"),
+                                    U("Off", disabled=True), U("Last", to_string="last")],
+                      note="ENABLED variants carrying strum attributes (serialize / message / props with keyword-like keys) before plain ones"))
     S.append(EnumSpec("Eight", [U("V%d" % i) for i in range(8)], note="8 enabled variants"))
     S.append(EnumSpec("Disc", [U("A", disc="5", disc_val=5), U("B"), U("H", disabled=True), U("C", disc="1", disc_val=1)],
                       repr="u8", note="explicit discriminants not in declaration order"))
